@@ -155,6 +155,15 @@ CLAIMED = {
             "runtime.Stack wait reasons are trusted; update functions that update the atom being swapped are excluded "
             "as in the property.",
             "§8 C09"),
+    "C10": ("FutureImpl.tla models the body goroutine, the two 1-slot channels, the flags and cancel's check-and-mark as "
+            "separate steps; TLC checks P1..P7 exhaustively for 4 body kinds x with/without canceller x caller-context expiry "
+            "(and exhibits the P4/P5 counterexample of the pre-repair design); that counterexample schedule is replayed "
+            "deterministically into the real code through a gate at the delivery hook, random schedules are recorded and "
+            "validated by TraceFuture.tla; race detector run",
+            "Exhaustive model checking (2 derefers + canceller + body); deterministic replay of the model's window for each "
+            "body kind; 154 (quick) / 3k (thorough) recorded real schedules validated; binding self-test.",
+            "Real schedules sampled; ordering of overlapping operations not judged; race detector trusted.",
+            "§8 C10"),
 }
 
 NOT_YET = "check not built yet in this round (planned in DESIGN.md §8; the specification module exists or is in progress)"
